@@ -20,6 +20,9 @@
 (*   [op |-> "if", c, block] [op |-> "else", block] [op |-> "while", c, block]*)
 (*   [op |-> "for", v, block] [op |-> "gate", n, ps, qs] [op |-> "def", n, ps]*)
 (*   [op |-> "close"]                                                        *)
+(*   [op |-> "ix", role, n, ix, x]     indexed identifier n<ix> as expression *)
+(*                                     statement / reset or measure operand / *)
+(*                                     assignment target                      *)
 (***************************************************************************)
 EXTENDS Naturals, Integers, Sequences, FiniteSets, TLC
 
@@ -277,6 +280,43 @@ Delay(qs) ==
   LET ops == EvalOperands(stack, syms, qs)
   IN Finish([op |-> "delay", qs |-> qs], stack, syms, ops.diags, <<"Delay", ops.skel>>, TRUE)
 
+(***************************** indexed identifiers ***************************)
+(* indexed_identifier_to_asg_type: the identifier is looked up first, then the index operators are translated in source  *)
+(* order; the expression keeps one IndexOperator per pair of brackets (a chained a[1][0] is two operators, a[0, 1] is one *)
+(* operator with two expressions, a[{0, 1}] a set, a[0:1] a list holding a range); the type is the SYMBOL's type.        *)
+IxForms == {"i", "ii", "m", "s", "r", "n"}
+IxRoles == {"expr", "reset", "measure", "lhs"}
+IxLit(t) == <<"Lit", "Int", t>>
+IxOps(ix, xs) ==
+  CASE ix = "i"  -> << <<"List", <<IxLit("0")>> >> >>
+    [] ix = "ii" -> << <<"List", <<IxLit("1")>> >>, <<"List", <<IxLit("0")>> >> >>
+    [] ix = "m"  -> << <<"List", <<IxLit("0"), IxLit("1")>> >> >>
+    [] ix = "s"  -> << <<"Set", <<IxLit("0"), IxLit("1")>> >> >>
+    [] ix = "r"  -> << <<"List", << <<"Range", IxLit("0"), <<"None">>, IxLit("1")>> >> >> >>
+    [] ix = "n"  -> << <<"List", <<xs>> >> >>
+IxCount(ix) == IF ix = "ii" THEN 2 ELSE 1          \* number of index operators
+IxDims(ix) == IF ix = "m" THEN 2 ELSE 1            \* num_dims of the first operator
+DimsOfT(t) == IF t = TQReg THEN 1 ELSE 0           \* Type::num_dims
+EvalIx(st, sy, n, ix, x) ==
+  LET id == Find(st, n)
+      xe == EvalExpr(st, sy, [k |-> "use", n |-> x])
+  IN [id |-> id, type |-> TypeOf(sy, id),
+      diags |-> (IF id = -1 THEN <<"UndefVarError">> ELSE <<>>) \o (IF ix = "n" THEN xe.diags ELSE <<>>),
+      skel |-> <<"Indexed", RefOf(id), IxOps(ix, xe.skel)>>]
+(* gate_operand_to_asg_texpr: an indexed operand must be a qubit REGISTER; assignment_stmt_to_asg_stmt, indexed target:   *)
+(* a single operator with more dimensions than the symbol has is reported, then the right-hand side is translated, and    *)
+(* a const target is reported last (as on the identifier path).                                                          *)
+IxStmt(role, n, ix, x) ==
+  LET e == EvalIx(stack, syms, n, ix, x)
+      ins == [op |-> "ix", role |-> role, n |-> n, ix |-> ix, x |-> x]
+      opcheck == IF e.type = TQReg THEN <<>> ELSE <<"IncompatibleTypesError">>
+      toomany == IF IxCount(ix) = 1 /\ IxDims(ix) > DimsOfT(e.type) THEN <<"TooManyIndexes">> ELSE <<>>
+      mutate == IF e.id # -1 /\ IsConstT(e.type) THEN <<"MutateConstError">> ELSE <<>>
+  IN CASE role = "expr"    -> Finish(ins, stack, syms, e.diags, <<"ExprStmt", e.skel>>, TRUE)
+       [] role = "reset"   -> Finish(ins, stack, syms, e.diags \o opcheck, <<"Reset", e.skel>>, TRUE)
+       [] role = "measure" -> Finish(ins, stack, syms, e.diags \o opcheck, <<"ExprStmt", <<"Measure", e.skel>> >>, TRUE)
+       [] role = "lhs"     -> Finish(ins, stack, syms, e.diags \o toomany \o mutate, <<"Assignment", e.skel, IxLit("1")>>, TRUE)
+
 Return(e) ==
   LET ev == EvalExpr(stack, syms, e)
       ds == ev.diags \o (IF Top(stack).kind = "Global" THEN <<"ReturnInGlobalScopeError">> ELSE <<>>)
@@ -412,6 +452,7 @@ SElse    == CanEmit /\ CanOpen /\ ~InSingle /\ LastIsIf /\ \E bl \in BOOLEAN : O
 SWhile   == CanEmit /\ CanOpen /\ \E cn \in Names, bl \in BOOLEAN : OpenWhile(cn, bl)
 SFor     == CanEmit /\ CanOpen /\ \E v \in Names, it \in Iterables, bl \in BOOLEAN : OpenFor(v, it, bl)
 SBin     == CanEmit /\ \E o \in BinOpsM, l \in Names, r \in Names : BinStmt(o, l, r)
+SIx      == CanEmit /\ \E role \in IxRoles, n \in Names, ix \in IxForms, x \in Names : (ix # "n" => x = n) /\ IxStmt(role, n, ix, x)
 SLit     == CanEmit /\ \E f \in LitForms : LitStmt(f)
 (* the statement just emitted once more (two identical consecutive statements: equal texts, equal diagnostics in a row) *)
 LastIns == prog[Len(prog)]
@@ -432,7 +473,7 @@ SDef     == CanEmit /\ CanOpen /\ \E n \in Names, ps \in {<<>>} \cup {<<p>> : p 
 SClose   == ~panicked /\ Close
 
 Next == SDecl \/ SQDecl \/ SAssign \/ SGateCall \/ SUse \/ SReset \/ SBarrier \/ SDelay \/ SReturn \/ SBreak \/ SPragma \/ SAnnot
-        \/ SStd \/ SIf \/ SElse \/ SWhile \/ SFor \/ SGate \/ SDef \/ SClose \/ SBin \/ SLit \/ SRepeat \/ SSwitch \/ SCase \/ SDefault
+        \/ SStd \/ SIf \/ SElse \/ SWhile \/ SFor \/ SGate \/ SDef \/ SClose \/ SBin \/ SLit \/ SIx \/ SRepeat \/ SSwitch \/ SCase \/ SDefault
 Spec == Init /\ [][Next]_vars
 
 (***************************** invariants of M ******************************)
